@@ -235,7 +235,41 @@ def check_run(ctx, case, by_construction=False):
         raise AssertionError("harness could not build the application: %r" % (e,))
     tokens, exp_args, exp_opts = LINES[case["line"]]
     tokens = list(tokens) + [t for t in (case.get("verbosity"), case.get("ansi")) if t]
-    out, err = BufferedOutputStream(), BufferedOutputStream()
+    if case.get("stream") == "ascii":
+        # real text streams that can only encode ASCII (like a terminal under LANG=C): the report must use its
+        # ASCII fallbacks there (only for messages that are ASCII themselves)
+        import io as _io
+
+        from clikit.io.output_stream import StreamOutputStream
+
+        class AsciiStream(StreamOutputStream):
+            def __init__(self):
+                self.raw = _io.BytesIO()
+                super(AsciiStream, self).__init__(_io.TextIOWrapper(self.raw, encoding="ascii", errors="strict",
+                                                                    write_through=True))
+
+            def fetch(self):
+                self._stream.flush()
+                return self.raw.getvalue().decode("ascii")
+
+        # history inside the case (so that it replays alone): the same failure is first reported at this verbosity
+        # on UTF-8 capable streams by another application object; process-wide state of the library is reset before
+        try:
+            from clikit.ui.components.exception_trace import ExceptionTrace
+
+            getattr(ExceptionTrace, "_FRAME_SNIPPET_CACHE", {}).clear()
+        except ImportError:
+            pass
+        prime_log = []
+        try:
+            build(case, prime_log).run(ArgvArgs(["prog"] + tokens), StringInputStream(""), BufferedOutputStream(),
+                                       BufferedOutputStream())
+        except BaseException as e:
+            if isinstance(e, (SystemExit, GeneratorExit)):
+                raise
+        out, err = AsciiStream(), AsciiStream()
+    else:
+        out, err = BufferedOutputStream(), BufferedOutputStream()
     try:
         status = app.run(ArgvArgs(["prog"] + tokens), StringInputStream(""), out, err)
     except BaseException as e:
@@ -358,6 +392,14 @@ def enumerated_cases(tier):
                 for oc in ({"kind": "return", "value": "1"}, {"kind": "raise", "exc": "ValueError",
                                                               "message": MESSAGES["balanced"], "origin": "module"}):
                     yield {"line": 1, "verbosity": v, "ansi": a, "listener": lk, "outcome": oc}
+    # reports on ASCII-only text streams, every verbosity and origin, ASCII messages
+    for ek in ("ValueError", "UserError", "LibCustom", "KeyboardInterrupt", "TypeError"):
+        for mk in ("plain", "multiline", "braces", "trailing-backslash", "lt-gt"):
+            for v in verbs:
+                k += 1
+                yield {"line": k % len(LINES), "verbosity": v, "ansi": [None, "--ansi"][k % 2], "listener": "absent",
+                       "stream": "ascii", "outcome": {"kind": "raise", "exc": ek, "message": MESSAGES[mk],
+                                                       "origin": ORIGINS[k % len(ORIGINS)]}}
     if tier == "thorough":
         for ek in EXC_KINDS:
             for mk in MESSAGES:
